@@ -140,3 +140,33 @@ def c19(tier):
     z = tab_units("zero_step", ns, 120 if tier == "quick" else 900)
     us = pipe_units("audit", "audit", tier)
     return z + us + [twin(z[5]), twin(z[-1]), twin(us[0])]
+
+
+def conf_units(tier):
+    out = []
+    Ks = [2] if tier == "quick" else [1, 2, 3]
+    for K in Ks:
+      for fl in range(8):
+        for integ in ("generic", "rdflib"):
+            for phys in (1, 2, 3):
+                out.append(U(f"conf:{integ}:stream_frames:p{phys}:fl{fl}:K{K}", "conf", "conf", dict(integ=integ, entry="stream_frames", phys=phys, K=K, flowsel=fl,
+                             setcmp=(integ == "rdflib" and phys == 3)), timeout=300))
+            for phys in (1, 2):
+                for entry in ("flat_file", "flat_frames", "grouped_file"):
+                    out.append(U(f"conf:{integ}:{entry}:in{phys}:fl{fl}:K{K}", "conf", "conf", dict(integ=integ, entry=entry, phys=phys, K=K, flowsel=fl,
+                                 projection="triples-if-triplestream", setcmp=(integ == "rdflib" and entry == "grouped_file")), timeout=300))
+        for phys in (1, 2):
+            out.append(U(f"conf:rdflib:graph_serialize:in{phys}:fl{fl}:K{K}", "conf", "conf", dict(integ="rdflib", entry="graph_serialize", phys=phys, K=K, flowsel=fl,
+                         projection="triples-if-triplestream", setcmp=True), timeout=300))
+    return out
+
+
+@prop("C06", functions=["pyjelly/serialize/streams.py:Stream.__init__", "pyjelly/serialize/streams.py:Stream.infer_flow", "pyjelly/serialize/flows.py:*",
+                        "pyjelly/integrations/generic/serialize.py:*", "pyjelly/integrations/rdflib/serialize.py:*", "pyjelly/options.py:StreamTypes.__post_init__"],
+      bounds={"quick": {"lattice": "3 stream classes x 8 logical types x delimited x {inferred + 7 FrameFlow classes} x entry points of both integrations; frame_size symbolic (all integers >= 1); 2 statements"},
+              "thorough": {"lattice": "same, 1..3 statements"}},
+      outside="user-defined FrameFlow subclasses; inputs longer than 3 statements (the flows only compare len(flow) with frame_size: covered by the symbolic frame_size)",
+      explanation="H-CONF: for each configuration the call raises, or the bytes parse back to the input and the flow is empty afterwards")
+def c06(tier):
+    us = conf_units(tier)
+    return us + [twin(us[0]), twin(us[-1])]
